@@ -187,10 +187,11 @@ def main():
         'checks': checks,
         'not_applicable': na,
         'notes': 'All checks are static (ast). exit 0 holds / exit 1 VIOLATION / exit 2 ANALYSIS-ERROR (checker cannot see; never a violation). '
-                 'Genuine defects found on the pinned snapshot were repaired by fix: commits in /repo (see known_findings.json "fixed"); two are '
-                 'recorded as known findings (C11.5, C08.d) and print KNOWN-FINDING lines. Regression corpora committed under /verif: seeded/ (161 '
-                 'property-breaking changes by independent agents, tools/run_seeded.py must print missed=0), twins/ (179 behaviour-preserving '
-                 'refactorings, tools/run_twins.py must print noisy=0), selftest/ (in-memory mutants and twins run by the thorough tier).',
+                 'Genuine defects found on the pinned snapshot were repaired by 22 fix: commits in /repo (see known_findings.json "fixed" and '
+                 'DESIGN.md 6 / 10.3); one is recorded as a known finding (C11.5) and prints a KNOWN-FINDING line. Regression corpora committed '
+                 'under /verif: seeded/ (268 property-breaking changes by independent agents, tools/run_seeded.py must print missed=0; SEEDED.md '
+                 'lists which rules report which change), twins/ (341 behaviour-preserving edits, tools/run_twins.py must print noisy=0), '
+                 'selftest/ (in-memory mutants and twins run by the thorough tier).',
     }
     with open(os.path.join(HERE, 'MANIFEST.json'), 'w') as fh:
         json.dump(m, fh, indent=1)
